@@ -140,8 +140,7 @@ def v1_sequences(ctx: Ctx, n: int):
             ctx.impl_traces += 1
             v1_step_oracle(ctx, w, op, cls, out, res, pre, post, spec)
             pending.append((kind, op, cls, out, res, acts, post, spec,
-                            {"fn": "gmx1.step", "env": env, "state": {"glp": pre["glp"], "reward": pre["reward"], "wallet": pre["wallet"]},
-                             "op": G.v1_op_json(op, w)}))
+                            w.step_request(pre, env, op)))
     if not ctx.driver_ok:
         for kind, op, cls, out, *_ in pending:
             ctx.case(f"v1:{op['kind']}:?:{out}:{cls}")
@@ -386,14 +385,15 @@ def v1_multibar(ctx: Ctx, n: int):
                 if op["kind"] == "fee":
                     req = {"fn": "gmx1.fee", "env": env, "tok": op["tok"], "usdg": op["amount"], "increase": op["increase"]}
                 else:
-                    req = {"fn": "gmx1.step", "env": env, "state": {"glp": pre["glp"], "reward": pre["reward"], "wallet": pre["wallet"]}, "op": G.v1_op_json(op, w)}
+                    req = w.step_request(pre, env, op)
                 steps.append((op, k, classes[k], cls, out, res, acts, post, rep, req))
         f = w.object_fields()
         m = w.market
         if (m.glp_decimal, m.mint_burn_fee_basis_points, m.tax_basis_points) != (18, 25, 60):
             ctx.disagree(f"v1 object constants changed during a run: glp_decimal {m.glp_decimal}, fee {m.mint_burn_fee_basis_points}, tax {m.tax_basis_points}", {"world": spec0, "events": list(hist)})
         fields = f if fields is None else sorted(set(fields) | set(f))
-        folds.append((seen, {"fn": "gmx1.events", "env0": env0, "state": {"glp": st0["glp"], "reward": st0["reward"], "wallet": st0["wallet"]}, "events": evs},
+        folds.append((seen, {"fn": "gmx1.events", "env0": env0, "state": {"glp": st0["glp"], "reward": st0["reward"], "wallet": st0["wallet"]}, "events": evs,
+                              "allowNeg": bool(w.allow_negative)},
                       {"world": spec0, "events": list(hist)}))
     if not ctx.driver_ok:
         for op, k, bcls, cls, out, *_ in steps:
@@ -762,7 +762,8 @@ def v1_actuator_runs(ctx: Ctx, n: int):
             evs.append({"ev": "balance"})
             seen.append(("balance", k, a._account_status_list[k]))
         folds.append((seen, classes, len(a.actions), w.market.market_info,
-                      {"fn": "gmx1.events", "env0": env0, "state": {"glp": st0["glp"], "reward": st0["reward"], "wallet": st0["wallet"]}, "events": evs},
+                      {"fn": "gmx1.events", "env0": env0, "state": {"glp": st0["glp"], "reward": st0["reward"], "wallet": st0["wallet"]}, "events": evs,
+                              "allowNeg": bool(w.allow_negative)},
                       {"world": spec0, "events": list(hist), "via": "actuator"}))
     import logging
     logging.disable(logging.NOTSET)
@@ -931,6 +932,7 @@ def run(ctx: Ctx):
     v2_multibar(ctx, ctx.scale(160, 3000))
     v1_actuator_runs(ctx, ctx.scale(12, 150))
     v2_actuator_runs(ctx, ctx.scale(12, 150))
+    G.special_stream(ctx, ctx.scale(500, 8000), "")
     G.static_state_check(ctx, static0)
     rec = G.recorded_rows()
     ctx.note("recorded_rows_available", rec is not None and len(rec))
@@ -949,6 +951,8 @@ def run(ctx: Ctx):
 def replay(ctx: Ctx, case) -> bool:
     sub = Ctx(ctx.prop, ctx.tier, ctx.seed, False)
     sp = case["world"]
+    if "special" in case:
+        return G.special_replay(case, "")
     if "roundtrip" in case:
         rt = case["roundtrip"]
         if sp["ver"] == 1:
